@@ -178,7 +178,8 @@ def merge_summaries(shards):
 # ---------------------------------------------------------------------------- replay files
 def write_replay(prop, rec):
     os.makedirs(REPLAYS, exist_ok=True)
-    path = os.path.join(REPLAYS, "%s_%s_%s.json" % (prop, rec.get("class", "x"), rec.get("seed", 0)))
+    cls = re.sub(r"[^A-Za-z0-9_.:+-]", "_", str(rec.get("class", "x")))[:80]     # class names may carry call names with '/' etc.
+    path = os.path.join(REPLAYS, "%s_%s_%s.json" % (prop, cls, rec.get("seed", 0)))
     with open(path, "w") as f:
         json.dump(rec, f, indent=1)
     return path
